@@ -86,6 +86,33 @@ int main(int argc, char **argv) {
             }
             delete seg;
         }
+        else if (w.size() >= 2 && w[0] == "assoc") {
+            // assoc <nchars> <before>,<after> ... : Segment::associateChars on a stream with the given slot ranges
+            int n = atoi(w[1].c_str()), m = (int)w.size() - 2;
+            if (n < 1 || m > 64 || n > 64) out = "bad-op";
+            else {
+                Segment *seg = new Segment(n, face, 0, 0);
+                for (int i = 0; i < m; ++i) seg->appendSlot(i % n, 0x61, 1, 0, i % n);
+                auto l = stream(*seg, 1000);
+                bool ok = (int)l.size() == m;
+                for (int i = 0; ok && i < m; ++i) {
+                    int b, a;
+                    if (sscanf(w[2 + i].c_str(), "%d,%d", &b, &a) != 2) { ok = false; break; }
+                    l[i]->before(b); l[i]->after(a);
+                }
+                if (!ok) out = "bad-op";
+                else {
+                    seg->associateChars(0, n);
+                    if (g_faults) out = "fault";
+                    else {
+                        out.clear();
+                        for (auto s : l) { snprintf(buf, sizeof buf, "%ss:%d,%d", out.empty() ? "" : " ", s->before(), s->after()); out += buf; }
+                        for (int i = 0; i < n; ++i) { snprintf(buf, sizeof buf, "%sc:%d,%d", out.empty() ? "" : " ", seg->charinfo(i)->before(), seg->charinfo(i)->after()); out += buf; }
+                    }
+                }
+                delete seg;
+            }
+        }
         puts(out.c_str());
         fflush(stdout);
     }
